@@ -325,8 +325,13 @@ def main():
     jobs = []
     if run.replay:
         rep = json.load(open(run.replay))
-        c = rep["case"]
-        jobs.append({"fam": c["fam"], "profile": c["profile"], "lineage": c["lineage"], "ops": tup(c["ops"])})
+        cs = [rep["case"]] if "fam" in rep["case"] else [x["case"] for x in rep["case"].get("first", []) if "fam" in x.get("case", {})]
+        for c in cs:
+            ops = [[int(x) if isinstance(x, str) and x.lstrip("-").isdigit() else x for x in o] for o in c["ops"]]
+            ops = [[o[0], tuple(o[1][1:-1].replace("'", "").split(", ")) if (o[0] == "df" and isinstance(o[1], str)) else o[1]] + list(o[2:])
+                   if len(o) > 1 else o for o in ops]
+            ops = [[o[0], (o[1][0], int(o[1][1]))] + list(o[2:]) if o[0] == "df" else o for o in ops]
+            jobs.append({"fam": c["fam"], "profile": c["profile"], "lineage": c["lineage"], "ops": tup(ops)})
     else:
         cpath = os.path.join(vlib.VERIF, "corpus", "C02.json")
         if os.path.exists(cpath):
